@@ -4,7 +4,7 @@ from __future__ import annotations
 import ast
 from typing import Callable, Dict, Iterable, List, Optional, Sequence, Set, Tuple
 
-from . import AnalysisError, flow, states
+from . import AnalysisError, flow, states, PKG
 from .index import index, Site, in_pkg, enclosing_func
 from .loader import Func, Repo, dotted, parent
 from .report import Ctx
@@ -1497,3 +1497,99 @@ def callable_argument(repo: Repo, fn: Func, callee: str, kw: str, pos: Optional[
                 if r is not None:
                     return r
     return None
+
+
+# ------------------------------------------------------------------------------------------ tallies start at zero
+def _is_zero_tally(e: Optional[ast.AST]) -> bool:
+    """`m.initial_energy(0)` / `initial_energy(0.0)`, a Map / dict comprehension whose values are the constant 0, `Map()`, 0 / 0.0"""
+    if e is None:
+        return False
+    e = flow.core(e)
+    if isinstance(e, ast.Constant):
+        return e.value in (0, 0.0) and not isinstance(e.value, bool)
+    if isinstance(e, ast.Call):
+        nm = e.func.attr if isinstance(e.func, ast.Attribute) else getattr(e.func, "id", "")
+        if nm == "initial_energy":
+            a = e.args[0] if e.args else next((k.value for k in e.keywords if k.arg in ("percent_full", "soc")), None)
+            return isinstance(a, ast.Constant) and a.value in (0, 0.0)
+        if nm in ("Map", "dict") or flow.dump(e.func).endswith("immutables.Map"):
+            if not e.args and not e.keywords:
+                return True
+            if len(e.args) == 1:
+                return _is_zero_tally(e.args[0])
+        return False
+    if isinstance(e, ast.DictComp):
+        return isinstance(e.value, ast.Constant) and e.value.value in (0, 0.0)
+    if isinstance(e, ast.Dict):
+        return all(isinstance(v, ast.Constant) and v.value in (0, 0.0) for v in e.values)
+    return False
+
+
+def _outer_binding(g: Func, v: Optional[ast.AST]) -> Optional[ast.AST]:
+    """a bare name that is a variable of an enclosing function with exactly one binding there: that binding's value"""
+    seen = 0
+    while isinstance(v, ast.Name) and seen < 4:
+        seen += 1
+        f = g.outer
+        found = None
+        while f is not None and found is None:
+            binds = [n for n in ast.walk(f.node) if isinstance(n, ast.Assign) and len(n.targets) == 1 and isinstance(n.targets[0], ast.Name)
+                     and n.targets[0].id == v.id and enclosing_func(n) is f]
+            if len(binds) == 1:
+                found = binds[0].value
+            f = f.outer
+        if found is None:
+            break
+        v = found
+    return v
+
+
+def rule_initial_tallies(ctx: Ctx, clause: str, fields_by_class: Dict[str, List[str]], rule="DU.initial-tally", min_sites: int = 2):
+    """Base case of every running balance: wherever an entity is constructed, its tallies (energy gained / expended / dispensed,
+    money balance) start at zero — otherwise the totals are off by the initial value from step 0 on although every later step adds
+    matching amounts on both sides. One obligation per (construction site, tally field); a field left to its class default is
+    checked against the default."""
+    repo = ctx.repo
+    n = 0
+    for cname, fields in fields_by_class.items():
+        decl = None
+        for m in repo.modules.values():
+            if m.relpath.startswith(PKG) and cname in m.classes:
+                decl = m.classes[cname]
+        defaults = {}
+        if decl is not None:
+            for s in decl.node.body:
+                if isinstance(s, ast.AnnAssign) and isinstance(s.target, ast.Name) and s.value is not None:
+                    defaults[s.target.id] = s.value
+        for fn in repo.all_funcs():
+            if fn.relpath.startswith(PKG + "/resources") or fn.outer is not None:
+                continue
+            if not any(isinstance(c.func, ast.Name) and c.func.id in (cname, "cls") for c in flow.calls_in(fn.node)):
+                continue
+            if not any(isinstance(c.func, ast.Name) and (c.func.id == cname or (c.func.id == "cls" and fn.cls is not None and fn.cls.name == cname)) and c.keywords for c in flow.calls_in(fn.node)):
+                continue
+            fams = [fn] + [g for g in fn.module.funcs.values() if g.qualname.startswith(fn.qualname + ".")]
+            for g in fams:
+                try:
+                    ps = flow.paths(g.node)
+                except AnalysisError:
+                    continue
+                for p in ps:
+                    for ev in p.events:
+                        c = ev.call
+                        if not (isinstance(c.func, ast.Name) and (c.func.id == cname or (c.func.id == "cls" and g.cls is not None and g.cls.name == cname)) and c.keywords):
+                            continue
+                        kw = {k.arg: k.value for k in c.keywords if k.arg}
+                        for f in fields:
+                            v = kw.get(f, defaults.get(f))
+                            if f not in kw and f not in defaults:
+                                continue
+                            n += 1
+                            v = _outer_binding(g, v)
+                            ctx.check(_is_zero_tally(v), clause, rule, f"{cname}(...) in {g.qualname}: {f} starts at zero", g, ev.raw,
+                                      why_bad=f"{f} = {flow.dump(v)[:100] if v is not None else '?'}: the tally of a new {cname.lower()} does not start at zero, so every total that includes it "
+                                              f"is off by that amount from the first step on (the per-step amounts still match on both sides)",
+                                      construct=f"initial-tally:{cname}:{g.qualname}:{f}")
+    if n < min_sites:
+        ctx.soft_fail(f"{rule}: only {n} (construction site, tally) pairs found")
+    return n
